@@ -15,5 +15,6 @@ def run(ctx):
     s = ctx['seed'] + 11
     return run_parts(ctx, [
         Part('projection', 'corr_proj', 'run', [s, 300 if q else 6000]),
+        Part('wrapper_code', 'corr_wrappergen', 'run', [s, 150 if q else 3000], count_exceptions=False),
         Part('join_loop_code', 'corr_joingen', 'run', [s, 150 if q else 3000], count_exceptions=False),
     ], RULE)
